@@ -32,6 +32,7 @@ from harness.drivers import C06
 PROCS = C06.PROCS
 OBS_BATCH = 120     # observations per TLC process when Safe is decided over a universe
 STREAM_BATCH = 700
+LAZY_EVERY = 2       # every n-th stream statement is also read through a lazy feed (requested columns)
 
 F_NOT = 'not-factors-unnegated'
 F_OR = 'or-keeps-one-sided-factor'
@@ -54,6 +55,7 @@ def mc_cfg(family, depth, maxrows, withnull):
     with open(path, 'w') as fh:
         fh.write(f'SPECIFICATION Spec\nCONSTANTS Family = "{family}"\n Depth = {depth}\n MaxRows = {maxrows}\n'
                  f' WithNull = {"TRUE" if withnull else "FALSE"}\n Lits <- ModelLits\n'
+                 f' Fixed = {{{", ".join(chr(34) + x + chr(34) for x in relgen.detect_fixes())}}}\n'
                  'INVARIANT Export\nINVARIANT FamilyWellFormed\nPOSTCONDITION Post\nCHECK_DEADLOCK FALSE\n')
     return path
 
@@ -80,18 +82,19 @@ def judge_hints(chk, obs, universe, dbs, tag, batch):
     envs, sizes = [], []
     for n, start in enumerate(range(0, len(obs), batch)):
         chunk = obs[start:start + batch]
-        payload = {'lits': lits, 'universe': universe, 'dbs': dbs,
+        payload = {'lits': lits, 'universe': universe, 'dbs': dbs, 'fixed': relgen.detect_fixes(),
                    'obs': [{'ast': o['ast'], 'res': o['res'],
                             'hints': [{'path': h['path'], 'table': h['table'], 'cols': h['cols'], 'pred': h['pred']}
                                       for h in o['hints']],
-                            'runs': o.get('runs', [])} for o in chunk]}
+                            'runs': o.get('runs', []),
+                            'lazy': o.get('lazy', {'res': 'none', 'cols': []})} for o in chunk]}
         envs.append({'TRACE_FILE': common.write_json(payload, f'hints-{tag}-{n}.json')})
         sizes.append(len(chunk))
     out = []
     for res, size, env in zip(C06.run_tlc_parallel(chk, 'TraceHints', 'TraceHints.cfg', envs), sizes, envs):
         got = {v[0]: v[1:] for v in relgen.printed_tuples(res.stdout, 'VERDICT')}
-        if len(got) != size or any(len(v) != 9 for v in got.values()):
-            raise tlc.MachineryError(f'TraceHints: expected {size} verdicts of 9 fields, got {len(got)}\n{res.stdout[-2500:]}')
+        if len(got) != size or any(len(v) != 10 for v in got.values()):
+            raise tlc.MachineryError(f'TraceHints: expected {size} verdicts of 10 fields, got {len(got)}\n{res.stdout[-2500:]}')
         out += [got[i] for i in range(1, size + 1)]
         os.unlink(env['TRACE_FILE'])
     return out
@@ -99,7 +102,7 @@ def judge_hints(chk, obs, universe, dbs, tag, batch):
 
 def failures(verdict):
     """Clauses of the property the RECORDED hints break, and the clauses the as-is model breaks for the statement."""
-    _, crash, drift, scoped, complete, unsafe, _, runs, asis = verdict
+    _, crash, drift, scoped, complete, unsafe, _, runs, asis, lazy = verdict
     real = set()
     if scoped == 0:
         real.add('unscoped')
@@ -109,6 +112,8 @@ def failures(verdict):
         real.add('unsafe')
     if any(r[0] == 1 and r[1] == 0 for r in runs):
         real.add('backend-differs')
+    if lazy == 0:
+        real.add('lazy-columns-incomplete')   # never predicted by the as-is hint model: always a VIOLATION
     if drift and asis:
         model = ({'unscoped'} if asis[0] == 0 else set()) | ({'incomplete'} if asis[1] == 0 else set()) | \
             ({'unsafe'} if asis[2] > 0 else set())
@@ -218,6 +223,7 @@ def _init(dbs):
 def _observe(task):
     idx, ast, dbis = task
     rec = relgen.record_hints(ast)
+    lazy = relgen.lazy_columns(ast) if idx % LAZY_EVERY == 0 else {'res': 'none', 'cols': {}}
     runs = []
     # the SQL of statements with a cross join / Not / Abs is wrong whatever the hints (C06 findings of the alchemy
     # reader): their hints are judged, but they are not executed (decided on the statement alone)
@@ -227,7 +233,7 @@ def _observe(task):
             hinted = relgen.run_hinted(ast, rec['hints'], _ENG[di].conns['sqlite'])
             runs.append({'db': di + 1, 'plain': plain, 'hinted': {'res': hinted['res'], 'rows': hinted['rows']},
                          'err': hinted.get('err')})
-    return idx, rec, runs
+    return idx, rec, runs, {'res': lazy['res'], 'cols': [[t, c] for t, c in sorted(lazy['cols'].items())]}
 
 
 def stream_conformance(chk):
@@ -239,19 +245,21 @@ def stream_conformance(chk):
         # statements with joins / predicates are the interesting ones: keep all semantic ones, sample the rest
         stmts = rnd.sample(stmts, want)
     dbs = relgen.make_dbs(chk.seed, 3)
-    tasks = [(i, s, [k for k, d in enumerate(dbs) if d['keyed'] or not relgen.needs_keyed(s)]) for i, s in enumerate(stmts)]
+    tasks = [(i, s, [k for k, d in enumerate(dbs) if (d['keyed'] or not relgen.needs_keyed(s))
+                     and relgen.row_bound(s, d['data']) <= relgen.MAX_ROWS]) for i, s in enumerate(stmts)]
     ctx = multiprocessing.get_context('fork')
     with ctx.Pool(PROCS, initializer=_init, initargs=(dbs,)) as pool:
-        seen = {i: (rec, runs) for i, rec, runs in pool.imap_unordered(_observe, tasks, chunksize=30)}
+        seen = {i: (rec, runs, lazy) for i, rec, runs, lazy in pool.imap_unordered(_observe, tasks, chunksize=30)}
     obs = []
     skipped = collections.Counter()
     for i, s, _ in tasks:
-        rec, runs = seen[i]
+        rec, runs, lazy = seen[i]
         if rec['res'] != 'ok':
             skipped[rec['res']] += 1     # parsing raised: C06's subject, no hints to judge
             continue
         obs.append({'ast': s, 'res': 'ok', 'hints': rec['hints'],
-                    'runs': [{'db': r['db'], 'plain': r['plain'], 'hinted': r['hinted']} for r in runs], 'errs': runs})
+                    'runs': [{'db': r['db'], 'plain': r['plain'], 'hinted': r['hinted']} for r in runs], 'errs': runs,
+                    'lazy': lazy})
         for h in rec['hints']:
             if h['cols'] != h['target_cols'] or (h['pred']['f'] == 'nil') != (h['target_pred'] is None):
                 raise tlc.MachineryError('segment read in visit_table and arguments of generate_table differ')
@@ -263,6 +271,7 @@ def stream_conformance(chk):
             raise tlc.MachineryError(f'ill-formed stream statement {relgen.show(o["ast"])}')
         stats['drift'] += v[2]
         stats['plain_rejected_(C06)'] += sum(1 for r in v[7] if r[0] == 0)
+        stats['lazy_reads_observed'] += v[9] >= 0
         if report(chk, o['ast'], v, 'stream', {'level': 'stream', 'hints': o['hints'], 'runs': o['errs'],
                                                 'dbs': [d['data'] for d in dbs]}):
             chk.validated(len(o['runs']))
@@ -306,6 +315,7 @@ def main(chk):
     import warnings
     warnings.simplefilter('ignore')
     logging.disable(logging.CRITICAL)
+    chk.extra['as_is_model_variant'] = {'FactorsImpl.Fixed': relgen.detect_fixes()}
     selftest(chk)
     summary = {}
     for family, depth, maxrows, withnull, ntab in (QUICK if chk.quick else THOROUGH):
@@ -350,7 +360,7 @@ def replay(chk, path):
     else:
         dbs = [{'keyed': True, 'data': d} for d in rep['dbs']]
         _init(dbs)
-        _, rec, runs = _observe((0, ast, list(range(len(dbs)))))
+        _, rec, runs, _ = _observe((0, ast, list(range(len(dbs)))))
         verdict = judge_hints(chk, [{'ast': ast, 'res': 'ok', 'hints': rec['hints'],
                                      'runs': [{'db': r['db'], 'plain': r['plain'], 'hinted': r['hinted']} for r in runs]}],
                               {'tables': [], 'maxrows': 0, 'dom': []}, [relgen.enc_db(d['data']) for d in dbs], 'replay', 10)[0]
